@@ -5,7 +5,7 @@ package main
 // family "pres": C11 — field presence follows the declared presence discipline.
 //
 // C lines (model: coq/theories/Msg/PresenceModel.v via ocaml/fam_pres.ml):
-//   haspres <label> <syn> <lbl> <oneof> <p3opt> <msg> <ext> <ismap> <islazy> <chain...> | HasPresence usePresence canBeLazy
+//   haspres <label> <syn> <lbl> <oneof> <p3opt> <msg> <ext> <ismap> <islazy> <chain...> | HasPresence usePresence canBeLazy schema-card
 //   bitmap  <flavour> <nwords> <ops...>                                       | query results..., words...
 //   hist    <label> <class> <kind> <ops...>                                   | Has after every op
 //   ohist   <label> <nwords> <fieldflags> <ops...>                            | Has after every op, raw XXX_presence words
@@ -382,11 +382,21 @@ func presHasPresCase(c *Ctx, label string, fd protoreflect.FieldDescriptor, decl
 		}()
 		use, lazy = filedesc.UsePresenceForField(fd)
 	}()
+	// the cardinality class that the message-codec harness (C03, common_msg.go msgFieldToken) puts
+	// into its schema tables: 0 explicit, 1 implicit, 2 required, 3 repeated (4 packed, folded
+	// into 3 here), 5 map -- tied to the same decision table (PresenceCodec.pc_card)
+	card := "?"
+	if parts := strings.Split(msgFieldToken(fd, nil), ":"); len(parts) > 2 {
+		card = parts[2]
+		if card == "4" {
+			card = "3"
+		}
+	}
 	// one C line per distinct (attributes, observation): the model is a function of the attributes
-	key := strings.Join(ins[1:], " ") + "|" + Tok(hp) + Tok(use) + Tok(lazy)
+	key := strings.Join(ins[1:], " ") + "|" + Tok(hp) + Tok(use) + Tok(lazy) + card
 	if !presHasPresSeen[key] {
 		presHasPresSeen[key] = true
-		c.Case("pres", "haspres", ins, []string{Tok(hp), Tok(use), Tok(lazy)})
+		c.Case("pres", "haspres", ins, []string{Tok(hp), Tok(use), Tok(lazy), card})
 	}
 	c.Stat("haspres_syn" + presSynTok(syn))
 
@@ -1137,6 +1147,7 @@ func presRoundTrips(c *Ctx, label string, m protoreflect.Message, fd protoreflec
 			c.PropFail("C11", fmt.Sprintf("panic during round trip: %v", r), label)
 		}
 	}()
+	presCodecCase(c, m)
 	b, err := proto.MarshalOptions{AllowPartial: true, Deterministic: true}.Marshal(m.Interface())
 	if err != nil {
 		c.Stat("rt_binary_marshal_err")
@@ -1193,6 +1204,52 @@ func presRoundTrips(c *Ctx, label string, m protoreflect.Message, fd protoreflec
 		}
 		c.Stat("rt_text")
 	}
+}
+
+// presCodecCase: Has on the canonical value (PresenceCodec.pc_has over the message codec model of
+// C03) against Has of the implementation for every field of the message type, and the numbers
+// of the top-level wire fields of Marshal(m) against the model's pc_wire.
+//   chas <schema id> <field numbers> <canonical value tokens...> | <has bits> <wire field numbers>
+func presCodecCase(c *Ctx, m protoreflect.Message) {
+	md := m.Descriptor()
+	if len(m.GetUnknown()) > 0 || msgReachesMessageSet(md, map[protoreflect.FullName]bool{}) {
+		return
+	}
+	b, err := proto.MarshalOptions{AllowPartial: true, Deterministic: true}.Marshal(m.Interface())
+	if err != nil {
+		return
+	}
+	id := msgSchemaOf(c, md)
+	var fds []protoreflect.FieldDescriptor
+	for i := 0; i < md.Fields().Len(); i++ {
+		fds = append(fds, md.Fields().Get(i))
+	}
+	for _, x := range msgExtensionsOf(md) {
+		fds = append(fds, x)
+	}
+	var nums []string
+	var bits strings.Builder
+	for _, fd := range fds {
+		nums = append(nums, HexN(uint64(fd.Number())))
+		bits.WriteString(Tok(m.Has(fd)))
+	}
+	var wire []string
+	for rest := b; len(rest) > 0; {
+		n, _, l := protowire.ConsumeField(rest)
+		if l < 0 {
+			c.PropFail("C11", "Marshal output does not scan", HexB(b))
+			return
+		}
+		wire = append(wire, HexN(uint64(n)))
+		rest = rest[l:]
+	}
+	w := "-"
+	if len(wire) > 0 {
+		w = strings.Join(wire, ",")
+	}
+	ins := append([]string{id, strings.Join(nums, ",")}, msgDump(m)...)
+	c.Case("pres", "chas", ins, []string{bits.String(), w})
+	c.Stat("chas")
 }
 
 func presFlavour(mt protoreflect.MessageType) string {
